@@ -51,6 +51,11 @@ abbrev Alloc := Shared → Option Nat
 with content or padding and `record.read` makes a new buffer each time -/
 def allocFresh : Alloc := fun _ => none
 
+/-- an allocator is safe if it never hands out a buffer in which some reader still has unread
+bytes: a record buffer belongs to one reader until its content is consumed -/
+def Alloc.Safe (a : Alloc) : Prop :=
+  ∀ sh k, a sh = some k → ∀ j r, sh.readers j = some r → r.ref.len ≠ 0 → r.ref.id ≠ k
+
 /-- the bytes a slice denotes -/
 def deref (heap : List Bytes) (r : BufRef) : Bytes :=
   (((heap[r.id]?).getD []).drop r.off).take r.len
@@ -171,8 +176,11 @@ def Indep.init (raws : List Bytes) : Nat → Option SR := fun i => (raws[i]?).ma
 
 /-- reading every reader to its end after the schedule: `2·len+2` further calls with `plen` bytes
 each are allowed (a finished reader ignores the rest) -/
-def drainSched (raws : List Bytes) (plen : Nat) : Sched :=
-  ((List.range raws.length).zip raws).flatMap fun (i, raw) => List.replicate (2 * raw.length + 2) (i, plen)
+def drainFrom (plen : Nat) : Nat → List Bytes → Sched
+  | _, [] => []
+  | i, raw :: rest => List.replicate (2 * raw.length + 2) (i, plen) ++ drainFrom plen (i + 1) rest
+
+def drainSched (raws : List Bytes) (plen : Nat) : Sched := drainFrom plen 0 raws
 
 /-- what every caller ends up with: stdout bytes, the end of the stream, the error log -/
 structure Ending where
